@@ -76,6 +76,30 @@ prop("C10", level="exploration",
      stages=[dict(name="limits", driver="c10_limits", flagset="asan", quick=6000, thorough=400000),
              dict(name="stack", driver="c10_stack", flagset="plain", quick=600, thorough=20000)])
 
+prop("C19", level="fault_enumeration",
+     level_text="Fault enumeration: global operator new is replaced by a counting fail-point. For each of 19 scenarios (parse from string/stream, decode CBOR/MessagePack/UBJSON/BSON, deep copy, copy-assign "
+                "json and ojson over existing values, insertion with reallocation, merge, apply_patch, from_diff (patch and merge patch), json_query, jmespath search, schema compile+validate, dump/dump_pretty/"
+                "operator<</encode_cbor, typed decode) and each generated input, the operation is run once fault-free (N allocations) and then once for every k=1..N with the k-th allocation throwing "
+                "std::bad_alloc. Oracle: bad_alloc (or the fault-free result) reaches the caller, no other exception type, no terminate; survivors are dumped/reassigned/destroyed under ASan; no block allocated "
+                "in the window is live after the survivors are destroyed (immediately after unwinding for strong-guarantee scenarios); apply_patch leaves the target equal to its pre-call value; sized "
+                "deallocations must match. A tracking stateful allocator (scoped_allocator_adaptor) checks that every block returns to an equal allocator with the requested size, also under injected failures.",
+     level_note="Every allocation index of each (scenario, input) is enumerated (single-failure model: exactly one allocation fails per run); inputs are sampled. Function-local statics are warmed up outside the window.",
+     technique="runtime monitoring with fault injection: counting operator-new fail-point enumerating every allocation index, live-block conservation monitor, tracking stateful allocator, ASan/UBSan",
+     rule="case = (scenario, generated input); for each, every allocation index 1..N is injected; distinct = distinct case index; every case is non-trivial (N >= 1 allocations)",
+     assumptions=["single allocation failure per run", "leak accounting by allocation headers written by the driver's operator new"],
+     stages=[dict(name="allocfail", driver="c19_allocfail", flagset="asan_noleak", quick=24000, thorough=200000)])
+
+prop("C20", level="exploration",
+     level_text="ThreadSanitizer build: 2-16 threads released together (spin barrier, randomized 0-50us start skew) run seeded mixes of read-only operations (is_valid, validate with reporter, walk; jsonpath "
+                "evaluate values/paths; jmespath evaluate; const json/ojson dump, copy, compare, lookup, iteration, flatten, encode_cbor, as<T>) on SHARED compiled schemas (Drafts 4-2020-12, with pattern, format, "
+                "$ref, $anchor, unevaluated*), JSONPath expressions (filters, functions, regex), JMESPath expressions and documents; half of each thread's operations hit one focus artifact. Oracle: zero TSan "
+                "reports (log parsed, de-duplicated by stack pair) and every per-thread result equal to the single-threaded result computed before the threads start.",
+     level_note="TSan sees only the interleavings that occurred; runs are repeated because reports vary run to run. The monitor keeps per-thread buffers merged after join (no shared mutable monitor state).",
+     technique="runtime monitoring: ThreadSanitizer race detection + per-thread result comparison against single-threaded results",
+     rule="episode = (thread count in {2,4,8,16}, focus artifact, per-thread seeded operation streams); distinct = distinct (episode index, thread count); every episode is non-trivial",
+     assumptions=["libstdc++ is not TSan-instrumented; std::regex internals are seen through interceptors only"],
+     stages=[dict(name="threads", kind="python", module="c20", builds=[("c20_threads", "tsan")], repeats_quick=3, episodes_quick=12, ops_quick=300, repeats_thorough=20, episodes_thorough=200, ops_thorough=2000)])
+
 prop("C16", level="exploration",
      level_text="Every generated (target, patch) pair and (source, target) pair is executed against the real apply_merge_patch/from_diff for json and ojson under ASan+UBSan and "
                 "judged by an RFC 7386 transcription over an independent value model; held means no mismatch on the pairs explored (counts in evidence).",
